@@ -344,6 +344,15 @@ def alias_descs():
             nodes.append(["xor_inv_g", at, fi, True])
             nodes.append(["g", "xnor", ins[:arity], True])
             yield {"name": "top", "nodes": nodes}
+    # two wide parity gates sharing TWO operands, under every assignment of names to the four roles (the chain
+    # order of each gate follows set iteration order, so the shared pair can be met in either order)
+    for perm in itertools.permutations(POOL[:5], 4):
+        for t1, t2 in (("xor", "xor"), ("xor", "xnor"), ("xnor", "xnor")):
+            x1, x2, x3, x4 = perm
+            nodes = [[i, "input", [], False] for i in POOL[:5]]
+            nodes.append(["g", t1, [x1, x2, x3], True])
+            nodes.append(["h", t2, [x1, x2, x4], True])
+            yield {"name": "top", "nodes": nodes}
     # two parity gates sharing an operand pair (shared auxiliary variable is fine if handled)
     for t1, t2 in itertools.product(("xor", "xnor"), repeat=2):
         nodes = [[i, "input", [], False] for i in ["p", "q", "r", "s"]]
